@@ -73,6 +73,55 @@ CLAIMED = {
         design='DESIGN.md section 5, C19',
         note='Trusted: CPython subprocess.call kills and reaps the child when the timeout expires. Not decided: '
              'grandchildren of shell commands, wall-clock bounds.'),
+    'C08': dict(
+        technique='executor trace model; path analysis with forked outcomes of the definition / reference validators; '
+                  'per-iteration typestate of the transitive restriction check; who-may-mutate the symbol table; '
+                  'table totality over the value types',
+        text='Symbols are validated in execution order by one executor over one growing copy of the predefined table; '
+             'on every path a duplicate definition is an error before anything is added, a definition is added only '
+             'after all of its own references validated, an undefined or restricted reference is a VALIDATION_ERROR '
+             'and a restriction failure is never dropped; the transitive check applies the indirect restriction to '
+             'every referenced symbol and recurses into its references on every iteration (none skipped); the symbol '
+             'table is mutated only by validation, the def instruction and the symbol command; the type table is total '
+             'over the 13 value types and pairs each with its own parser; lists in strings join every element.',
+        design='DESIGN.md section 5, C08'),
+    'C11': dict(
+        technique='executor trace model (object identity of the settings across main steps); typestate of the '
+                  'environment generators (age of the timeout read vs. loop iteration); typestate of the env appliers; '
+                  'decision tables of applier selection; handler analysis of ${name} expansion',
+        text='One InstructionSettings object and one setup-settings handler per execution reach every main step and the '
+             'act executor; every instruction environment is built inside the per-instruction loop from a read of the '
+             'live timeout/environment that is younger than the iteration; each env applier expands against and '
+             'modifies the same set, populating it from the fresh default getter first; act / non-act selection and '
+             'the setup / non-setup factories follow the documented table; an unknown ${name} expands to the empty '
+             'string constant and nothing but the given set is consulted; only the timeout instruction writes the '
+             'timeout; no process is started with cwd=.',
+        design='DESIGN.md section 5, C11'),
+    'C16': dict(
+        technique='constant folding of the verdict sets (partition); decision tables of the progress and JUnit '
+                  'reporters by abstract evaluation per kind of case result; typestate of the per-case loop and '
+                  'enumeration; control-flow analysis of read errors, double inclusion and glob materialisation',
+        text='The nine verdicts are partitioned into success / JUnit failure / JUnit error with success = {PASS, '
+             'SKIPPED, XFAIL}; for each of the 13 kinds of case result the progress reporter ends OK exactly when the '
+             'case is successful and JUnit counts failures+errors = 1 with a matching element exactly otherwise; each '
+             'case is processed exactly once between begin/end in listing order and its result recorded; sub-suites '
+             'are enumerated before the listing suite; a read error returns the read-error reporter (exit 3) before '
+             'anything executes; an accepted sub-suite path is recorded as visited at once (resolved path; root '
+             'pre-recorded); glob results are materialised inside the handler that converts pattern errors and are '
+             'returned sorted.',
+        design='DESIGN.md section 5, C16'),
+    'C17': dict(
+        technique='freshness-chain (copy) analysis of per-case values; module-state scan; path-sensitive composition '
+                  'analysis of the suite-contents transformer; who-may-call + decision table of the handling-setup '
+                  'resolution',
+        text='Symbol tables and environment dicts are copied at least once, per case, between the configuration '
+             'shared by all cases of the process and the place instructions mutate them; execution modules have no '
+             'global statement or process-wide cache; suite contents precede the case\'s in every phase except cleanup '
+             'and on every path of the concatenation both operands are kept unless the path condition says one is '
+             'empty; standalone and suite runs derive the handling setup through the same function, with --suite '
+             'before exactly.suite beside the case before the default; cases use the setup of the suite that lists '
+             'them, sub-suites start from the default.',
+        design='DESIGN.md section 5, C17'),
 }
 
 NOT_APPLICABLE = {
